@@ -1,1 +1,14 @@
-fn main() {}
+//! vx_commit: storage-level explorations (K3 schedules, K4 crash/fault enumeration).
+mod smoke;
+
+use vcore::{machinery_error, Ctx};
+
+fn main() {
+    let ctx = Ctx::from_args();
+    vcore::quiet_panics();
+    let out = match ctx.id.as_str() {
+        "SMOKE" => smoke::run(&ctx),
+        other => machinery_error(&format!("vx_commit does not implement {other}")),
+    };
+    vcore::finish(&ctx, out);
+}
